@@ -10,4 +10,5 @@ INIT Init
 NEXT Next
 INVARIANT C05_CaseExpIsSpec
 INVARIANT C05_GraphExpIsSpec
+INVARIANT C05_IngroupPassIsExpected
 CHECK_DEADLOCK TRUE
